@@ -172,9 +172,12 @@ func init() {
 		setup: func(x *schedExec) {
 			o := smallOpts(x.dir)
 			o.InMemory, o.Dir, o.ValueDir = true, "", ""
+			o.managedTxns = x.j.Int("case", 0) == 4 // case 4: managed mode, one request carrying several versions
 			x.db = mustOpen(o)
 			st := &c32State{done: make(chan error, 1)}
 			switch x.j.Int("case", 0) {
+			case 4:
+				st.pats = []c32Pattern{{prefix: []byte("ab"), igStr: ""}}
 			case 0:
 				st.pats = []c32Pattern{{prefix: []byte("ab\xff"), igStr: ""}}
 			case 1:
@@ -216,6 +219,25 @@ func init() {
 				}
 				ths = append(ths, sched.Thread{Name: st.names[i], Body: func() {
 					x.s.Point("op")
+					if x.db.opt.managedTxns {
+						// a managed write batch: the keys of this writer at two different versions in one request
+						wb := x.db.NewManagedWriteBatch()
+						ks := make([]string, 0)
+						for k := range st.txns[i] {
+							ks = append(ks, k)
+						}
+						sort.Strings(ks)
+						for n, k := range ks {
+							e := NewEntry([]byte(k), []byte(st.txns[i][k])).WithMeta(byte(5 + i))
+							if err := wb.SetEntryAt(e, uint64(10*(i+1)+n)); err != nil {
+								panic(err)
+							}
+						}
+						if err := wb.Flush(); err != nil {
+							panic(err)
+						}
+						return
+					}
 					err := x.db.Update(func(txn *Txn) error {
 						ks := make([]string, 0)
 						for k := range st.txns[i] {
@@ -295,7 +317,8 @@ func init() {
 			}
 			// commit-timestamp order; within one commit any order
 			for i := 1; i < len(got); i++ {
-				if got[i-1].Ver > got[i].Ver {
+				// (managed mode: versions are chosen by the callers, application order need not follow them)
+				if got[i-1].Ver > got[i].Ver && !x.db.opt.managedTxns {
 					return "", fmt.Sprintf("KVs not in commit order: %v", got), "publisher-order"
 				}
 			}
